@@ -215,14 +215,15 @@ def answer (ts : List String) : String :=
   let ends := parseEnds (field ts "ends")
   let stackerrs := parseEnds (field ts "stackerr")
   let bad : Option String :=
-    match firstSome stackerrs (fun e => some s!"kind=vm-stack-error op={opNameAt p e.1.off} at={e.1.show}>{e.2} declared={p.declared}") with
-    | some r => some r
-    | none =>
     match firstSome starts (checkStart p H) with
     | some r => some r
     | none => match firstSome edges (fun e => checkEdge p H e.1 e.2) with
       | some r => some r
-      | none => firstSome ends (fun e => checkEnd p H e.1 e.2)
+      | none =>
+        -- (a stack error that follows a bad transition is its consequence: transitions are judged first)
+        match firstSome stackerrs (fun e => some s!"kind=vm-stack-error op={opNameAt p e.1.off} at={e.1.show}>{e.2} declared={p.declared}") with
+        | some r => some r
+        | none => firstSome ends (fun e => checkEnd p H e.1 e.2)
   let dyn := match bad with
     | some r => s!"dyn-bad {r}"
     | none => s!"dyn-ok starts={starts.length} edges={edges.length} ends={ends.length}"
